@@ -20,7 +20,7 @@ KINDS = [
     "no_ranking", "tied_position", "non_integer_weight_veto", "non_integer_weight_random_transfer",
     "non_integer_weight_stv_random", "missing_scores", "m_out_of_range", "alaska_stages",
     "score_vector", "rating_limits", "unknown_quota", "generator_sums", "generator_bloc_names",
-    "overlapping_intervals", "duplicate_candidates",
+    "overlapping_intervals", "duplicate_candidates", "from_params_checks",
 ]
 RULE = (
     "Hypothesis: for each documented precondition (" + ", ".join(KINDS) + ") a valid request built "
@@ -117,6 +117,13 @@ def case(draw):
             c["delta"] = draw(st.sampled_from([1e-6, -1e-6, 0.01, -0.2, 1e-10, -1e-10]))
         else:
             c["which"] = draw(st.sampled_from(["prop", "cohesion", "intervals"]))
+        c["bloc"] = draw(st.sampled_from(sorted(c["params"]["slates"])))
+    elif kind == "from_params_checks":
+        c["model"] = draw(st.sampled_from(GEN_MODELS))
+        two = c["model"] in ("slate_BradleyTerry", "AlternatingCrossover", "CambridgeSampler")
+        c["params"] = draw(G.params(n_blocs=2 if two else draw(st.integers(2, 3)), allow_zero=False, max_slate=2))
+        c["variant"] = draw(st.sampled_from(["prop_sum", "slate_bloc_names", "prop_bloc_names"]))
+        c["delta"] = draw(st.sampled_from([1e-6, -1e-6, 0.05, -0.3]))
         c["bloc"] = draw(st.sampled_from(sorted(c["params"]["slates"])))
     elif kind == "overlapping_intervals":
         c["a"] = draw(G.supports(["A", "B", "C"], allow_zero=False))
@@ -404,6 +411,38 @@ def check(case):
             kw[key] = {(b if b != bloc else b + "_x"): v for b, v in kw[key].items()}
             expect_raise(out, kind, lambda: build(kw), (ValueError,), f"{model}: bloc {bloc} renamed in {key}")
             nt = which != "prop"
+    elif kind == "from_params_checks":
+        import votekit.ballot_generator as bg
+        from .. import rng as R
+
+        model, params, bloc = case["model"], case["params"], case["bloc"]
+        extra = {"num_votes": 2} if model == "name_Cumulative" else {}
+        kw = G.build_kwargs(params)
+        alphas = {b: {b2: 1 for b2 in params["slates"]} for b in params["slates"]}
+
+        def build(slates, prop, coh):
+            with R.owned(rng.get("seed", 0)):
+                return getattr(bg, model).from_params(slate_to_candidates=slates, bloc_voter_prop=prop,
+                                                       cohesion_parameters=coh, alphas=alphas, **extra)
+
+        try:
+            build(kw["slate_to_candidates"], kw["bloc_voter_prop"], kw["cohesion_parameters"])
+        except Exception as exc:  # noqa: BLE001
+            out.fail(kind, f"valid_rejected_{type(exc).__name__}", f"{model}.from_params: {exc!r}")
+            return out
+        var = case["variant"]
+        slates, prop, coh = dict(kw["slate_to_candidates"]), dict(kw["bloc_voter_prop"]), kw["cohesion_parameters"]
+        if var == "prop_sum":
+            prop[bloc] += case["delta"]
+            what = f"bloc_voter_prop sums to 1{case['delta']:+g}"
+        elif var == "slate_bloc_names":
+            slates = {(b if b != bloc else b + "_x"): v for b, v in slates.items()}
+            what = f"bloc {bloc} renamed in slate_to_candidates"
+        else:
+            prop = {(b if b != bloc else b + "_x"): v for b, v in prop.items()}
+            what = f"bloc {bloc} renamed in bloc_voter_prop"
+        expect_raise(out, kind, lambda: build(slates, prop, coh), (ValueError,), f"{model}.from_params: {what}")
+        nt = var != "prop_sum" or abs(case["delta"]) <= 1e-5
     elif kind == "overlapping_intervals":
         from votekit.pref_interval import PreferenceInterval, combine_preference_intervals
 
